@@ -45,48 +45,50 @@ theorem calcNext_good (a : Alarm) (cal : Calendar) (t nl : Nat) (hs : a.sod < D)
 @[simp] theorem armed_lastServed (a : Alarm) (e : Env) (T d : Nat) : (armed a e T d).lastServed = a.lastServed := rfl
 
 theorem activeTimer_of_none (a : Alarm) (e : Env)
-    (hc : calcNext a e.cal (addOff (max e.sec a.target) a.offset) = none) : activeTimer a e = (a, false) := by
+    (hc : calcNext a e.cal (addOff (a.base e) a.offset) = none) : activeTimer a e = (a, false) := by
   unfold activeTimer; simp only [hc]
 
 theorem activeTimer_of_some (a : Alarm) (e : Env) (nl : Nat)
-    (hc : calcNext a e.cal (addOff (max e.sec a.target) a.offset) = some nl) :
+    (hc : calcNext a e.cal (addOff (a.base e) a.offset) = some nl) :
     activeTimer a e = (armed a e (subOff nl a.offset) (delayMs (w32 (subOff nl a.offset + U32 - e.sec)) e.ms), true) := by
   unfold activeTimer; simp only [hc]
 
-/-- the arithmetic of activeTimer without wrap -/
-theorem arm_arith (cur tgt : Nat) (off : Int) (nl ms : Nat) (hr : InRange (max cur tgt) off)
-    (h1 : addOff (max cur tgt) off < nl) (h2 : nl < addOff (max cur tgt) off + 368 * D) (hms : ms < 1000) :
-    ((subOff nl off : Nat) : Int) + off = nl ∧ max cur tgt < subOff nl off ∧
+/-- the arithmetic of activeTimer without wrap (`start` = the base of the search, not before `cur`) -/
+theorem arm_arith (cur start : Nat) (off : Int) (nl ms : Nat) (hcs : cur ≤ start) (hr : InRange start off)
+    (h1 : addOff start off < nl) (h2 : nl < addOff start off + 368 * D) (hms : ms < 1000) :
+    ((subOff nl off : Nat) : Int) + off = nl ∧ start < subOff nl off ∧
     delayMs (w32 (subOff nl off + U32 - cur)) ms + ms = (subOff nl off - cur) * 1000 := by
   obtain ⟨r1, r2, r3⟩ := hr
   simp only [addOff, U32_eq, D_eq] at h1 h2
   have hT : ((subOff nl off : Nat) : Int) = (nl : Int) - off := by
     simp only [subOff, U32_eq]; omega
-  have hlt : max cur tgt < subOff nl off := by omega
+  have hlt : start < subOff nl off := by omega
   have hw : w32 (subOff nl off + U32 - cur) = subOff nl off - cur := by
     simp only [w32, U32_eq]; omega
   refine ⟨by omega, hlt, ?_⟩
   rw [hw, delayMs_exact _ _ (by simp only [U32_eq]; omega) (by omega) hms]
   omega
 
+theorem base_ge (a : Alarm) (e : Env) : e.sec ≤ a.base e ∧ a.target ≤ a.base e ∧ a.lastServed ≤ a.base e := by
+  unfold Alarm.base; omega
 
 theorem env_ms_lt (e : Env) : e.ms < 1000 := by unfold Env.ms; omega
 
 /-- what a successful activeTimer establishes (no uint32 wrap in range) -/
 theorem activeTimer_spec (a : Alarm) (e : Env) (hs : a.sod < D)
-    (hr : InRange (max e.sec a.target) a.offset) (hok : (activeTimer a e).2 = true) :
-    ∃ nl T d, calcNext a e.cal (addOff (max e.sec a.target) a.offset) = some nl ∧
+    (hr : InRange (a.base e) a.offset) (hok : (activeTimer a e).2 = true) :
+    ∃ nl T d, calcNext a e.cal (addOff (a.base e) a.offset) = some nl ∧
       activeTimer a e = (armed a e T d, true) ∧
-      (T : Int) + a.offset = nl ∧ max e.sec a.target < T ∧ d + e.ms = (T - e.sec) * 1000 ∧
-      Earliest (Matches a e.cal) (addOff (max e.sec a.target) a.offset) nl := by
-  cases hc : calcNext a e.cal (addOff (max e.sec a.target) a.offset) with
+      (T : Int) + a.offset = nl ∧ a.base e < T ∧ d + e.ms = (T - e.sec) * 1000 ∧
+      Earliest (Matches a e.cal) (addOff (a.base e) a.offset) nl := by
+  cases hc : calcNext a e.cal (addOff (a.base e) a.offset) with
   | none => rw [activeTimer_of_none a e hc] at hok; cases hok
   | some nl =>
-    have hrange : addOff (max e.sec a.target) a.offset + 368 * D ≤ U32 := by
+    have hrange : addOff (a.base e) a.offset + 368 * D ≤ U32 := by
       obtain ⟨r1, r2, r3⟩ := hr
       simp only [addOff, U32_eq, D_eq]; omega
     have hg := calcNext_good a e.cal _ nl hs hrange hc
-    have har := arm_arith e.sec a.target a.offset nl e.ms hr hg.1.1 hg.2 (env_ms_lt e)
+    have har := arm_arith e.sec (a.base e) a.offset nl e.ms (base_ge a e).1 hr hg.1.1 hg.2 (env_ms_lt e)
     exact ⟨nl, subOff nl a.offset, delayMs (w32 (subOff nl a.offset + U32 - e.sec)) e.ms, rfl,
       activeTimer_of_some a e nl hc, har.1, har.2.1, har.2.2, hg.1⟩
 
@@ -95,7 +97,7 @@ theorem activeTimer_fields (a : Alarm) (e : Env) :
     (activeTimer a e).1.cls = a.cls ∧ (activeTimer a e).1.nFired = a.nFired ∧
     (activeTimer a e).1.nEnabled = a.nEnabled ∧ (activeTimer a e).1.hasCb = a.hasCb ∧
     (activeTimer a e).1.subs = a.subs ∧ (activeTimer a e).1.sod = a.sod := by
-  cases hc : calcNext a e.cal (addOff (max e.sec a.target) a.offset) with
+  cases hc : calcNext a e.cal (addOff (a.base e) a.offset) with
   | none => rw [activeTimer_of_none a e hc]; simp
   | some nl => rw [activeTimer_of_some a e nl hc]; simp [armed]
 
@@ -103,7 +105,7 @@ theorem activeTimer_fields (a : Alarm) (e : Env) :
 theorem activeTimer_cases (a : Alarm) (e : Env) :
     ((activeTimer a e).2 = true ∧ (activeTimer a e).1.st = .running ∧ (activeTimer a e).1.timer.isSome = true) ∨
     ((activeTimer a e).2 = false ∧ (activeTimer a e).1 = a) := by
-  cases hc : calcNext a e.cal (addOff (max e.sec a.target) a.offset) with
+  cases hc : calcNext a e.cal (addOff (a.base e) a.offset) with
   | none => rw [activeTimer_of_none a e hc]; simp
   | some nl => rw [activeTimer_of_some a e nl hc]; simp [armed]
 
